@@ -1000,7 +1000,7 @@ theorem step_of_empty_run (w : World) (u : User) (c : Cmd) (crash : Option Nat)
   cases crash with
   | none => exact ⟨hdb, hdirs, ht⟩
   | some k =>
-    have : cutAfterDb [] k = ([], none) := by cases k <;> rfl
+    have : cutAt [] k = ([], none) := cutAt_nil k
     dsimp only
     rw [this]
     exact ⟨hdb, hdirs, ht⟩
